@@ -919,3 +919,12 @@ VARIANTS += [
     dict(prop="C04", name="mac-key-index-ignores-offset", expect="FRESH-r|r-per-batch",
          edits=[dict(file=VLF, find="            .generate(Self::r_share_record(offset, TOTAL_CALLS_TO_PRSS));", replace="            .generate(Self::r_share_record(0, TOTAL_CALLS_TO_PRSS));")]),
 ]
+
+VARIANTS += [
+    dict(prop="C01", name="slice-chunks-remainder-from-rounded-len", expect="CHUNK-cover|ranges-tile-the-slice",
+         edits=[dict(file=CHF, find="        remainder_len: slice.len() % N,", replace="        remainder_len: (slice.len() + 1) % N,")]),
+    dict(prop="C01", name="slice-chunks-whole-count-rounds-up", expect="CHUNK-cover|ranges-tile-the-slice",
+         edits=[dict(file=CHF, find="        let whole_chunks = this.slice.len() / N;", replace="        let whole_chunks = this.slice.len().div_ceil(N).saturating_sub(usize::from(this.slice.len() % N == 1));")]),
+    dict(prop="C01", name="slice-chunks-range-by-offset", benign=True,
+         edits=[dict(file=CHF, find="            let slice = &this.slice[N * idx..N * (idx + 1)];", replace="            let start = N * idx;\n            let slice = &this.slice[start..start + N];")]),
+]
